@@ -1,6 +1,7 @@
 package props
 
 import (
+	"context"
 	"fmt"
 	"os"
 	"sort"
@@ -118,8 +119,8 @@ func sibIndexProblems(tx *bbolt.Tx, sc *schema.Schema) (index []string, dangling
 func siblingScenario(c *core.Ctx, idx int, prop string) {
 	r := c.Rand()
 	hubs := &schema.StoreDef{Type: "hubs", BasePath: []string{"stores"},
-		Fields: []schema.Field{{Name: "nodes", Kind: schema.KList, FK: "nodes", Derived: true}},
-		Links:  []schema.LinkDef{{Field: "nodes", Target: "nodes", TargetField: "hubs"}}}
+		Fields: []schema.Field{{Name: "nodes", Kind: schema.KList, FK: "nodes", Derived: true}, {Name: "bnodes", Kind: schema.KList, FK: "nodes/kb", Derived: true}},
+		Links:  []schema.LinkDef{{Field: "nodes", Target: "nodes", TargetField: "hubs"}, {Field: "bnodes", Target: "nodes/kb", TargetField: "bhubs"}}}
 	nodes := &schema.StoreDef{Type: "nodes", BasePath: []string{"stores"},
 		Fields: []schema.Field{{Name: "label", Kind: schema.KStr}, {Name: "tags", Kind: schema.KList}, {Name: "hubs", Kind: schema.KList, FK: "hubs", Derived: true}},
 		SetIdx: []string{"tags"},
@@ -129,8 +130,10 @@ func siblingScenario(c *core.Ctx, idx int, prop string) {
 		Unique: []schema.UniqueDef{{Field: "acode", Nullable: true}}, SetIdx: []string{"aroles"},
 		FKs: []schema.FKDef{{Field: "owner", Target: "hubs", Kind: schema.FkConstraint, Nullable: true, Cascade: int(boltz.CascadeNone)}}}
 	kidB := &schema.StoreDef{Type: "nodes", Parent: "nodes", ChildPath: []string{"kb"}, Extended: idx%2 == 1,
-		Fields: []schema.Field{{Name: "bcode", Kind: schema.KStr}, {Name: "broles", Kind: schema.KList}, {Name: "owner", Kind: schema.KStr, FK: "hubs"}},
-		Unique: []schema.UniqueDef{{Field: "bcode", Nullable: true}}, SetIdx: []string{"broles"},
+		// the second child store owns a link collection of its own (below its child path)
+		Fields: []schema.Field{{Name: "bcode", Kind: schema.KStr}, {Name: "broles", Kind: schema.KList}, {Name: "owner", Kind: schema.KStr, FK: "hubs"}, {Name: "bhubs", Kind: schema.KList, FK: "hubs", Derived: true}},
+		Links:  []schema.LinkDef{{Field: "bhubs", Target: "hubs", TargetField: "bnodes"}},
+		Unique: []schema.UniqueDef{{Field: "bcode", Nullable: prop != "C09"}}, SetIdx: []string{"broles"},
 		FKs: []schema.FKDef{{Field: "owner", Target: "hubs", Kind: schema.FkConstraint, Nullable: true, Cascade: int(boltz.CascadeNone)}}}
 	sc := schema.Build([]*schema.StoreDef{hubs, nodes, kidA, kidB})
 	path := c.TempFile("c06s")
@@ -150,6 +153,10 @@ func siblingScenario(c *core.Ctx, idx int, prop string) {
 		return nil
 	})
 	ids := []string{"nd-one", "nd-two", "nd-three"}
+	if prop == "C09" {
+		// more ids: runs of neighbours without data in the second child store, whose unique index is not nullable
+		ids = append(ids, "nd-four", "nd-five", "nd-six")
+	}
 	seq := 0
 	ent := func(id, via string) *schema.Ent {
 		seq++
@@ -170,7 +177,7 @@ func siblingScenario(c *core.Ctx, idx int, prop string) {
 	}
 	for step := 0; step < 40; step++ {
 		id := core.Pick(r, ids)
-		kind := core.Pick(r, []string{"create", "create", "create-second-child", "update", "link", "delete", "delete", "delete-owner-hub", "create-owner-hub"})
+		kind := core.Pick(r, []string{"create", "create", "create-second-child", "update", "link", "link-b", "delete", "delete", "delete-owner-hub", "create-owner-hub"})
 		via := core.Pick(r, []string{"parent", "childA", "childB"})
 		var before *dump.Dump
 		var hadP, hadA, hadB bool
@@ -199,6 +206,8 @@ func siblingScenario(c *core.Ctx, idx int, prop string) {
 				return stores[via].Store.Update(ctx, ent(id, via), nil)
 			case "link":
 				return stores["parent"].Links["hubs"].AddLinks(ctx.Tx(), id, "hub-zz")
+			case "link-b":
+				return stores["childB"].Links["bhubs"].AddLinks(ctx.Tx(), id, "hub-zz")
 			case "delete":
 				return stores[via].Store.DeleteById(ctx, id)
 			case "delete-owner-hub":
@@ -225,9 +234,43 @@ func siblingScenario(c *core.Ctx, idx int, prop string) {
 			}
 			return nil
 		})
+		if prop == "C09" {
+			c09SiblingSoundness(c, sc, db, after, info, kidB.Extended)
+		}
+		if prop == "C15" {
+			// lookups through each store: the parent finds every entity, a plain child store those with data in it, the
+			// extended one every entity of the parent (its own fields empty where there is no data)
+			_ = db.View(func(tx *bbolt.Tx) error {
+				for _, nid := range ids {
+					p, a, b := has(tx, nid)
+					for _, via := range []string{"parent", "childA", "childB"} {
+						want := map[string]bool{"parent": p, "childA": p && a, "childB": p && (b || kidB.Extended)}[via]
+						func() {
+							defer func() {
+								if rec := recover(); rec != nil {
+									c.Violationf(fmt.Sprintf("C15 siblings: lookup through %s panicked (entity has data in child B: %v, child B extended: %v)", via, b, kidB.Extended), info, "FindById(%s): %v", nid, rec)
+								}
+							}()
+							e, found, err := stores[via].Store.FindById(tx, nid)
+							c.Eval()
+							c.Count("sibling_lookups", 1)
+							if err != nil || found != want || (found && e == nil) {
+								c.Violationf(fmt.Sprintf("C15 siblings: lookup through %s: found=%v, expected %v", via, found, want), info, "FindById(%s) err=%v (parent=%v, child A data=%v, child B data=%v, child B extended=%v)", nid, err, p, a, b, kidB.Extended)
+							}
+						}()
+					}
+				}
+				return nil
+			})
+		}
 		if opErr != nil {
 			if after.Hash() != before.Hash() {
 				c.Violationf(prop+" siblings: an operation that returned an error changed the database ("+kind+" through "+via+")", info, "diff: %v", dump.Diff(before, after, nil, 4))
+			}
+			if prop == "C15" && kind == "delete" && hadP && via == "parent" {
+				// nothing restricts the delete of a node (nodes are referrers, never targets of an fk)
+				shape := fmt.Sprintf("parent%s%s", map[bool]string{true: "+A"}[hadA], map[bool]string{true: "+B"}[hadB])
+				c.Violationf("C15 siblings: an existing entity cannot be deleted through the parent store ("+shape+", second child store extended="+fmt.Sprint(kidB.Extended)+")", info, "%v", opErr)
 			}
 			continue
 		}
@@ -268,6 +311,69 @@ func siblingScenario(c *core.Ctx, idx int, prop string) {
 				}
 				return nil
 			})
+		}
+	}
+}
+
+// c09SiblingSoundness: the state was reached through the API alone and the raw scan found the indexes mirroring the
+// entities and no dangling owner, so the integrity check (check-only, in a read-only and in a writable transaction) has
+// nothing to report and changes nothing.
+func c09SiblingSoundness(c *core.Ctx, sc *schema.Schema, db *boltz.DbImpl, state *dump.Dump, info map[string]any, extended bool) {
+	clean := true
+	parentOnlyRun := 0
+	_ = db.View(func(tx *bbolt.Tx) error {
+		ixp, dang := sibIndexProblems(tx, sc)
+		clean = len(ixp) == 0 && len(dang) == 0
+		run := 0
+		for _, id := range sc.St("nodes").RawIds(tx) {
+			if bpath(tx, "stores", "nodes", id, "kb") == nil {
+				run++
+				if run > parentOnlyRun {
+					parentOnlyRun = run
+				}
+			} else {
+				run = 0
+			}
+		}
+		return nil
+	})
+	if !clean {
+		return
+	}
+	for _, mode := range []string{"view", "update"} {
+		var reps []string
+		run := func(ctx boltz.MutateContext) error {
+			for _, k := range []string{"hubs", "nodes", "nodes/ka", "nodes/kb"} {
+				k := k
+				if err := sc.St(k).Store.CheckIntegrity(ctx, false, func(err error, fixed bool) {
+					reps = append(reps, fmt.Sprintf("[%s] %v (fixed=%v)", k, err, fixed))
+				}); err != nil {
+					return fmt.Errorf("store %s: %w", k, err)
+				}
+			}
+			return nil
+		}
+		var err error
+		if mode == "view" {
+			err = db.View(func(tx *bbolt.Tx) error { return run(boltz.NewTxMutateContext(context.Background(), tx)) })
+		} else {
+			err = db.Update(nil, run)
+		}
+		c.Eval()
+		c.Count("sibling_consistent_states_checked", 1)
+		if parentOnlyRun >= 2 && extended {
+			c.Count("extended_store_checked_over_a_run_of_parent_only_neighbours", 1)
+		}
+		if err != nil {
+			c.Violationf("C09 siblings: integrity check failed on a consistent database ("+mode+")", info, "%v", err)
+		}
+		if len(reps) > 0 {
+			c.Violationf("C09 siblings: integrity check reports on a consistent database: "+firstWords(reps[0]), info, "%d reports: %v", len(reps), reps)
+		}
+		var after *dump.Dump
+		_ = db.View(func(tx *bbolt.Tx) error { after = dump.Tx(tx); return nil })
+		if after.Hash() != state.Hash() {
+			c.Violationf("C09 siblings: check-only integrity run changed the database ("+mode+")", info, "diff: %v", dump.Diff(state, after, nil, 4))
 		}
 	}
 }
